@@ -25,7 +25,7 @@ func verifOpenOut(t *testing.T) *verifOut {
 	if path == "" {
 		t.Skip("VERIF_OUT not set")
 	}
-	f, err := os.Create(path)
+	f, err := os.OpenFile(path, os.O_CREATE|os.O_WRONLY|os.O_APPEND, 0o644) // appended: one run may execute several tests (the driver removes the file first)
 	if err != nil {
 		t.Fatal(err)
 	}
